@@ -13,7 +13,10 @@ the model order):
   F  eval_fixed: SEM and the three p-value families against scipy.stats.ttest_rel / ttest_1samp
      on the per-subject evaluations (real eval_fixed on RDM alphabets, and eval_fixed with the
      names `compare` / `boot_noise_ceiling` imported into inference.evaluate replaced so that
-     every vector of per-subject evaluations over a value alphabet is driven through it).
+     every vector of per-subject evaluations over a value alphabet is driven through it); the data RDMs
+     come from a provenance menu (fresh, subset with non-contiguous index, subsample with repeated index
+     in draw order, concat of two stacks, user-set index with duplicates), n_rdm 2-6: statistics are
+     across ALL RDMs of the stack (SEM = std/sqrt(n), dof = n - 1).
   M  monotonicity: a grid of effect sizes at fixed variance, p never increases with the effect.
   S  sequences: every ordered pair (thorough: triple) of calls from {get_means, get_sem, get_ci,
      test_pairwise/zero/noise/all x admissible test types, summary} on ONE Result (hand-built with 1
@@ -746,6 +749,53 @@ def _fixed_inputs(case, seed):
     return mod, data
 
 
+PROVS = ['fresh', 'subset', 'subsample', 'concat', 'userindex']
+
+
+def data_with_provenance(dvec, prov, exact=True):
+    """RDMs object holding exactly the rows of dvec (in this order), obtained in different ways; what
+    differs is the 'index' rdm descriptor: 0..n-1, non-contiguous, repeated (draw order), re-initialised,
+    user-supplied with duplicates.  eval_fixed's statistics are across ALL rows of the stack."""
+    from rsatoolbox.rdm import RDMs, concat
+    dvec = np.asarray(dvec, dtype=float)
+    n, L = dvec.shape
+    if prov == 'fresh':
+        return RDMs(dvec.copy())
+    if prov == 'subset':
+        # rows of interest at positions 1, 3, 4, 6, 7, 9, ... of a larger stack
+        pos = [1 + i + (i + 1) // 2 for i in range(n)]
+        big = np.zeros((pos[-1] + 2, L)) + 9.0 + np.arange(pos[-1] + 2)[:, None] + np.arange(L)[None, :] ** 2
+        big[pos] = dvec
+        return RDMs(big).subset('index', pos)
+    if prov == 'subsample':
+        # a with-replacement draw: the 'index' descriptor repeats, in draw order
+        if not exact:
+            return RDMs(dvec.copy()).subsample('index', [(2 * i) // 3 for i in range(n)])
+        uniq, draw = [], []
+        for row in dvec.tolist():
+            if row not in uniq:
+                uniq.append(row)
+            draw.append(uniq.index(row))
+        if len(uniq) == n:            # no repeated row: every RDM drawn once, in reversed order
+            return RDMs(dvec[::-1].copy()).subsample('index', list(range(n - 1, -1, -1)))
+        return RDMs(np.array(uniq)).subsample('index', draw)
+    if prov == 'concat':
+        k = max(1, n // 2)
+        return concat([RDMs(dvec[:k].copy()), RDMs(dvec[k:].copy())]) if n > 1 else RDMs(dvec.copy())
+    if prov == 'userindex':
+        return RDMs(dvec.copy(), rdm_descriptors={'index': [(i // 2) * 3 for i in range(n)]})
+    raise ValueError(prov)
+
+
+def provenance_rows(dvec, prov):
+    """'subsample' means repeated RDMs: make every second row a repeat of its predecessor"""
+    dvec = np.array(dvec, dtype=float)
+    if prov == 'subsample' and len(dvec) > 2:
+        for i in range(2, len(dvec), 3):
+            dvec[i] = dvec[i - 1]
+    return dvec
+
+
 def _undefined_real(mod, data, method):
     """the comparison measure (or the pooled RDM of the noise ceiling) is undefined for these RDMs"""
     from scipy.stats import rankdata
@@ -790,14 +840,18 @@ def _F_execute(case, ctx):
             E = np.round(0.3 + 0.2 * g.normal(size=(m, n)) + 0.2 * g.normal(size=(1, n)), 4)
         lo = case.get('lo', 0.25)
         models = _models(m)
-        data = RDMs(np.arange(3.0 * n).reshape(n, 3) + 1.0)
+        data = data_with_provenance(np.arange(3.0 * n).reshape(n, 3) + 1.0, case.get('prov', 'fresh'), exact=False)
     else:
         mod, dvec = _fixed_inputs(case, ctx.seed)
+        dvec = provenance_rows(dvec, case.get('prov', 'fresh'))
         if _undefined_real(mod, dvec, method):
             ctx.exclude('comparison measure / pooled RDM undefined (zero-norm or constant RDM)')
             return None
         models = [ModelFixed('model%d' % i, mod[i]) for i in range(m)]
-        data = RDMs(dvec)
+        data = data_with_provenance(dvec, case.get('prov', 'fresh'))
+        if data.n_rdm != n or not np.array_equal(data.get_vectors(), dvec):
+            from mc.runner import HarnessError
+            raise HarnessError('provenance %r did not reproduce the intended stack' % case.get('prov'))
         E = None
 
     def run(perm):
@@ -1478,10 +1532,10 @@ def shards(tier, seed):
         for rng in _chunks(total, per):
             out.append({'fam': 'F', 'mode': 'patched', 'm': m, 'n': n, 'alpha': alpha, 'range': rng})
     for m in (1, 2, 3, 4):
-        out.append({'fam': 'F', 'mode': 'patched', 'm': m, 'ns': [2, 3, 4, 5] + ([7] if th else []),
+        out.append({'fam': 'F', 'mode': 'patched', 'm': m, 'ns': [2, 3, 4, 5, 6] + ([7] if th else []),
                     'fills': 6 if th else 3})
         for method in ['cosine', 'corr', 'spearman'] + (['tau-a', 'rho-a', 'cosine_cov'] if th else []):
-            out.append({'fam': 'F', 'mode': 'real', 'm': m, 'method': method, 'ns': [2, 3, 4, 5],
+            out.append({'fam': 'F', 'mode': 'real', 'm': m, 'method': method, 'ns': [2, 3, 4, 5, 6],
                         'n_conds': [3, 4] + ([5] if th else []), 'fills': 5 if th else 2})
     for m in ((1, 2, 3) if th else (1, 2)):
         for method in ('cosine', 'corr'):
@@ -1571,12 +1625,14 @@ def run_shard(shard, ctx):
             if 'range' in shard:
                 for idx in range(*shard['range']):
                     cases.append({'fam': 'F', 'mode': 'patched', 'm': shard['m'], 'n': shard['n'],
-                                  'vals': ['A', shard['alpha'], idx], 'lo': 0.25 if idx % 2 else 0.3})
+                                  'vals': ['A', shard['alpha'], idx], 'lo': 0.25 if idx % 2 else 0.3,
+                                  'prov': PROVS[idx % len(PROVS)]})
             else:
                 for n in shard['ns']:
-                    for fill in range(shard['fills']):
-                        cases.append({'fam': 'F', 'mode': 'patched', 'm': shard['m'], 'n': n, 'vals': ['B', fill],
-                                      'lo': 0.4})
+                    for prov in PROVS:
+                        for fill in range(shard['fills'] if prov == 'fresh' else 1):
+                            cases.append({'fam': 'F', 'mode': 'patched', 'm': shard['m'], 'n': n, 'vals': ['B', fill],
+                                          'lo': 0.4, 'prov': prov})
         else:
             if 'range' in shard:
                 for idx in range(*shard['range']):
@@ -1589,6 +1645,10 @@ def run_shard(shard, ctx):
                         for fill in range(shard['fills']):
                             cases.append({'fam': 'F', 'mode': 'real', 'm': shard['m'], 'n': n, 'n_cond': n_cond,
                                           'method': shard['method'], 'vals': ['B', fill]})
+                    if shard['m'] <= 3 or ctx.tier == 'thorough':
+                        for prov in PROVS[1:]:      # data provenance menu (index descriptor forms)
+                            cases.append({'fam': 'F', 'mode': 'real', 'm': shard['m'], 'n': n, 'n_cond': 4,
+                                          'method': shard['method'], 'vals': ['B', 0], 'prov': prov})
         recs = [r for r in (_F_execute(c, ctx) for c in cases) if r is not None]
         _F_judge_batch(recs, ctx)
     elif fam == 'M':
